@@ -12,6 +12,7 @@ import (
 	"net/url"
 	"runtime"
 	"strings"
+	"sync"
 	"time"
 
 	"github.com/sirupsen/logrus"
@@ -90,36 +91,38 @@ func c14Run(r *core.Run, idx int, rng *rand.Rand) {
 		valid           bool
 		keyFault        bool // the key storage fails while the request is served
 		debugLog        bool // the process-wide log level is "trace" while the request is served
+		busy            bool // other clients keep sending small DEFLATE requests to the same provider meanwhile
 	}
 	var variants []variant
 	for _, ep := range []string{"sso_query", "sso_form", "logout_query", "logout_form"} {
 		for _, pl := range []string{"comment", "text", "attribute", "after_root"} {
-			variants = append(variants, variant{pl, ep, true, false, false})
+			variants = append(variants, variant{pl, ep, true, false, false, false})
 		}
 	}
-	variants = append(variants, variant{"comment", "sso_query", false, false, false}, variant{"text", "logout_query", false, false, false}, variant{"garbage", "sso_query", false, false, false}, variant{"garbage", "logout_form", false, false, false})
+	variants = append(variants, variant{"comment", "sso_query", false, false, false, false}, variant{"text", "logout_query", false, false, false, false}, variant{"garbage", "sso_query", false, false, false, false}, variant{"garbage", "logout_form", false, false, false, false})
 	// padding in front of the root element; and bombs that arrive while the key storage is failing (error paths
 	// look at the message too)
-	variants = append(variants, variant{"before_root", "sso_query", true, false, false}, variant{"before_root", "logout_form", true, false, false},
-		variant{"before_root", "sso_query", true, true, false}, variant{"attribute", "sso_form", true, true, false}, variant{"text", "logout_query", true, true, false}, variant{"comment/zlib", "sso_query", true, true, false})
+	variants = append(variants, variant{"before_root", "sso_query", true, false, false, false}, variant{"before_root", "logout_form", true, false, false, false},
+		variant{"before_root", "sso_query", true, true, false, false}, variant{"attribute", "sso_form", true, true, false, false}, variant{"text", "logout_query", true, true, false, false}, variant{"comment/zlib", "sso_query", true, true, false, false})
 	// other containers around the same DEFLATE data (what zlib / gzip producing peers send)
-	variants = append(variants, variant{"comment/zlib", "sso_query", true, false, false}, variant{"after_root/zlib", "logout_form", true, false, false}, variant{"text/gzip", "sso_form", true, false, false}, variant{"comment/gzip", "logout_query", true, false, false})
+	variants = append(variants, variant{"comment/zlib", "sso_query", true, false, false, false}, variant{"after_root/zlib", "logout_form", true, false, false, false}, variant{"text/gzip", "sso_form", true, false, false, false}, variant{"comment/gzip", "logout_query", true, false, false, false})
 	// the same data as many complete DEFLATE streams back to back, each one small (a decoder may stop after the first
 	// stream or read them all: either way what it materialises is bounded; acceptance is not judged for these)
-	variants = append(variants, variant{"comment/multi", "sso_query", true, false, false}, variant{"text/multi", "logout_form", true, false, false}, variant{"after_root/multi", "sso_form", true, false, false})
-	variants = append(variants, variant{"utf16", "logout_query", false, false, false}, variant{"utf16", "sso_form", false, false, false})
+	variants = append(variants, variant{"comment/multi", "sso_query", true, false, false, false}, variant{"text/multi", "logout_form", true, false, false, false}, variant{"after_root/multi", "sso_form", true, false, false, false})
+	variants = append(variants, variant{"comment", "logout_query", true, false, false, true}, variant{"text", "sso_query", true, false, false, true})
+	variants = append(variants, variant{"utf16", "logout_query", false, false, false, false}, variant{"utf16", "sso_form", false, false, false, false})
 	// verbose logging switched on at run time (what gets logged about a request must be bounded too); other methods
 	// than GET and POST on the same routes (the form parser reads the query for all of them, the body for PUT / PATCH)
-	variants = append(variants, variant{"comment", "sso_query", true, false, true}, variant{"text", "logout_form", true, false, true}, variant{"attribute/zlib", "sso_form", true, false, true})
-	variants = append(variants, variant{"comment", "sso_query:HEAD", true, false, false}, variant{"text", "sso_form:PUT", true, false, false}, variant{"attribute", "sso_form:PATCH", true, false, false},
-		variant{"comment", "logout_query:DELETE", true, false, false}, variant{"after_root", "logout_form:PUT", true, false, false})
+	variants = append(variants, variant{"comment", "sso_query", true, false, true, false}, variant{"text", "logout_form", true, false, true, false}, variant{"attribute/zlib", "sso_form", true, false, true, false})
+	variants = append(variants, variant{"comment", "sso_query:HEAD", true, false, false, false}, variant{"text", "sso_form:PUT", true, false, false, false}, variant{"attribute", "sso_form:PATCH", true, false, false, false},
+		variant{"comment", "logout_query:DELETE", true, false, false, false}, variant{"after_root", "logout_form:PUT", true, false, false, false})
 	if !thorough {
 		// quick: every endpoint with two placements, every placement on two endpoints
 		keep := map[string]bool{"sso_query/comment": true, "sso_query/attribute": true, "sso_form/text": true, "sso_form/after_root": true,
 			"logout_query/comment": true, "logout_query/text": true, "logout_form/attribute": true, "logout_form/after_root": true}
 		var v2 []variant
 		for _, v := range variants {
-			if keep[v.endpoint+"/"+v.place] || !v.valid || strings.Contains(v.place, "/") || v.keyFault || v.debugLog || strings.Contains(v.endpoint, ":") || v.place == "before_root" || v.place == "utf16" {
+			if keep[v.endpoint+"/"+v.place] || !v.valid || strings.Contains(v.place, "/") || v.keyFault || v.debugLog || strings.Contains(v.endpoint, ":") || v.place == "before_root" || v.place == "utf16" || v.busy {
 				v2 = append(v2, v)
 			}
 		}
@@ -139,6 +142,9 @@ func c14Run(r *core.Run, idx int, rng *rand.Rand) {
 		for _, size := range sizes {
 			if stop {
 				break
+			}
+			if v.busy && size < 32<<20 {
+				continue // only acceptance is judged beside busy clients
 			}
 			// the message
 			var prefix, suffix string
@@ -215,6 +221,29 @@ func c14Run(r *core.Run, idx int, rng *rand.Rand) {
 					return ""
 				}
 			}
+			stopBusy := func() {}
+			if v.busy {
+				// eight other clients keep sending small, valid DEFLATE requests while the bomb is inflated
+				quit := make(chan struct{})
+				var bwg sync.WaitGroup
+				small := "SAMLRequest=" + url.QueryEscape(spsim.DeflateB64(conformantLogout(rng, sp).XML(rng)))
+				for g := 0; g < 8; g++ {
+					bwg.Add(1)
+					go func() {
+						defer bwg.Done()
+						for {
+							select {
+							case <-quit:
+								return
+							default:
+							}
+							e.Do(env.Req{Path: env.PathSLO, Query: small})
+						}
+					}()
+				}
+				time.Sleep(5 * time.Millisecond)
+				stopBusy = func() { close(quit); bwg.Wait() }
+			}
 			runtime.GC()
 			var m0, m1 runtime.MemStats
 			runtime.ReadMemStats(&m0)
@@ -222,6 +251,7 @@ func c14Run(r *core.Run, idx int, rng *rand.Rand) {
 			call := e.Do(rq)
 			ms := time.Since(t0).Milliseconds()
 			runtime.ReadMemStats(&m1)
+			stopBusy()
 			if v.debugLog {
 				logging.SetLevel(logrus.InfoLevel)
 			}
@@ -234,6 +264,10 @@ func c14Run(r *core.Run, idx int, rng *rand.Rand) {
 				class += "|verbose_logging"
 				r.Count("payloads_with_verbose_logging", 1)
 			}
+			if v.busy {
+				class += "|other_clients_busy"
+				r.Count("payloads_beside_busy_clients", 1)
+			}
 			if v.keyFault {
 				class += "|key_storage_fault"
 				r.Count("payloads_during_key_storage_fault", 1)
@@ -241,7 +275,9 @@ func c14Run(r *core.Run, idx int, rng *rand.Rand) {
 			desc := map[string]any{"endpoint": v.endpoint, "padding": v.place, "inflated_bytes": size, "parameter_bytes": len(param), "allocated_bytes": res.Delta, "millis": ms, "status": call.D.Status}
 			r.Eval(class)
 			r.Count("payloads", 1)
-			r.Max("max_total_alloc_delta_MiB", int64(res.Delta>>20))
+			if !v.busy {
+				r.Max("max_total_alloc_delta_MiB", int64(res.Delta>>20))
+			}
 			r.Max("max_heap_sys_MiB", int64(res.HeapSys>>20))
 			r.Max("max_millis", ms)
 			if call.Panic != "" {
@@ -249,14 +285,14 @@ func c14Run(r *core.Run, idx int, rng *rand.Rand) {
 				stop = true
 				break
 			}
-			if res.Delta > 512<<20 {
+			if res.Delta > 512<<20 && !v.busy {
 				r.Violate(core.Violation{Clause: "allocation_ceiling", Class: class, Reason: fmt.Sprintf("one request of %d bytes allocated %d MiB (ceiling 512 MiB)", len(param), res.Delta>>20), Workload: wl, Index: idx, Case: desc})
 				stop = true
 			}
 			if size >= 32<<20 && res.Accepted && container != "multi" {
 				r.Violate(core.Violation{Clause: "bomb_accepted", Class: class, Reason: fmt.Sprintf("a payload inflating to %d MiB was accepted", size>>20), Workload: wl, Index: idx, Case: desc})
 			}
-			if size >= 256<<20 {
+			if size >= 256<<20 && !v.busy {
 				if base, ok := deltas[64<<20]; ok {
 					r.Count("flatness_comparisons", 1)
 					if float64(res.Delta) > 1.5*float64(base)+16*(1<<20) {
